@@ -180,13 +180,6 @@ Definition nv_block1 : block := mkBlock 5 55 [EUpdate (mkU 0 11 12 13 14); EVeri
                                            EVerify (mkVB 4 0 1 9 0xa2 7); EVerify (mkVB 5 1 2 9 0xa1 7); EVerify (mkVB 6 2 2 9 0 7)].
 Definition nv_block2 : block := mkBlock 8 88 [EVerify (mkVB 0 4294967295 3 9 0xa3 7); EUpdate (mkU 2 31 32 33 34)].
 Definition nv_ops : list hop := [HBlock nv_block1 (Some (TL1Rht, 40%nat)); HBlock nv_block1 None; HRestart; HBlock nv_block2 None; HReorg 8; HBlock nv_block2 None].
-Lemma nv_state_facts :
-  let d := st_db (run_hist nv_ops lstate_new) in
-  map l_idx (d_leaves d) = [0; 1; 2] /\ map vr_rid (d_vb d) = [1; 0; 4294967295] /\
-  map (fun r => N.eqb (vr_rer r) (sroot_ref 32 (nonzero_entries (map (fun i => (N.of_nat i, gmap (firstn 3 (d_vb d)) i)) [0%nat; 4294967294%nat; 4294967295%nat])))) (d_vb d)
-    = [false; false; true] /\
-  last_processed d = 8.
-Proof. vm_compute. repeat split; reflexivity. Qed.
 Example C11_nonvacuous_history : hist_ordered nv_ops lstate_new.
 Proof. apply hist_ordered_b_sound. vm_compute. reflexivity. Qed.
 (* the sparse reference evaluator used by the run-time property predicate agrees with the stored root on this history *)
